@@ -35,21 +35,54 @@ def mk(v, kind="C", dt="float64"):
 exec(MK_SRC)
 
 
+def _vals(a, dt):
+    v = np.asarray(a, dtype=float)
+    return v.astype(dt).tolist() if dt != "float64" else v.tolist()
+
+
 def arrange(rnd, arrs, dt="float64", p2d=0.55):
     """spec = [(nested list, kind, dtype), ...]: 1-D, or a 2-D reshape (non-square when the size allows) with an
-    independently chosen memory layout per array"""
+    independently chosen memory layout per array; dt: one dtype for all arrays, or one per array"""
+    dts = [dt] * len(arrs) if isinstance(dt, str) else list(dt)
     m = len(arrs[0])
     if m >= 2 and rnd.random() < p2d:
         divs = [d for d in range(2, m) if m % d == 0 and d * d != m] or [d for d in range(1, m + 1) if m % d == 0]
         r = rnd.choice(divs)
         spec = []
         same = rnd.choice(KINDS) if rnd.random() < 0.3 else None
-        for a in arrs:
-            v = np.asarray(a, dtype=float).reshape(r, m // r)
-            v = v.astype(dt).tolist() if dt != "float64" else v.tolist()
-            spec.append((v, same or rnd.choice(KINDS), dt))
+        for a, d in zip(arrs, dts):
+            spec.append((_vals(np.asarray(a, dtype=float).reshape(r, m // r), d), same or rnd.choice(KINDS), d))
         return spec
-    return [((np.asarray(a, dtype=float).astype(dt).tolist() if dt != "float64" else [float(x) for x in a]), "C", dt) for a in arrs]
+    return [(_vals(a, d), "C", d) for a, d in zip(arrs, dts)]
+
+
+DTYPES = ["int32", "int64", "float32", "float64"]
+
+
+def mixed_axes(rnd, m, extent_e, extent_n, spill=0.0):
+    """easting / northing / extra values of DIFFERENT dtypes (all ordered pairs of int32, int64, float32, float64) whose values
+    need the wider type: integers next to fractions on a 2^-12 grid; float32-exact values next to doubles with a large
+    offset and sub-float32 resolution (UTM-like 7.5e6 + fractions).  Returns (arrs, dtypes, base_e, base_n)."""
+    de, dn = rnd.sample(DTYPES, 2)
+    big = rnd.random() < 0.5 or "float32" in (de, dn)
+
+    def axis(d, base, extent):
+        lo, hi = -spill * extent, (1 + spill) * extent
+        if d.startswith("int"):
+            return [base + rnd.randint(int(np.ceil(lo)), int(hi)) for _ in range(m)]
+        if d == "float32":      # multiples of 1/16: exact in float32 up to ~5e5
+            return [base + rnd.randint(int(np.ceil(lo * 16)), int(hi * 16)) / 16 for _ in range(m)]
+        return [base + rnd.randint(int(np.ceil(lo * 4096)), int(hi * 4096)) / 4096 for _ in range(m)]
+
+    def base(d):
+        if not big:
+            return 0.0
+        return 7.5e6 if d in ("float64", "int64", "int32") else 5.0e5    # 7.5e6 + k/4096 is not a float32
+
+    be, bn = base(de), base(dn)
+    dx = rnd.choice(DTYPES)
+    arrs = [axis(de, be, extent_e), axis(dn, bn, extent_n), axis(dx, 0.0, 50)]
+    return arrs, [de, dn, dx], be, bn
 
 
 def from_arrays(arrays):
